@@ -311,6 +311,18 @@ func main() {
 			}
 			return &rtp.Packet{Header: rtp.Header{Version: 2, SequenceNumber: seq}, Payload: pl}
 		}, maxNALUs+2, maxAU+4096)
+		// several completely reassembled large NAL units under one timestamp: each and every adjacent pair within
+		// MaxAccessUnitSize, the access unit far beyond it (judged at every returned frame and every 32nd packet: peak)
+		Format.HostileStream(ctx, "large-fua-nalus-in-one-access-unit", ctx.Budget(1500, 20000), h26x.LargeUnits(ctx.Rng, 6, func(s, e bool) []byte {
+			h := byte(0x05)
+			if s {
+				h |= 0x80
+			}
+			if e {
+				h |= 0x40
+			}
+			return []byte{0x7c, h}
+		}), 0, 2*maxAU+65536+4096, maxAU)
 		h26x.FuzzPTSEqualsDTS(ctx, "H264", ctx.Budget(3000, 200000), hostile, ptsEq)
 	}
 }
